@@ -323,6 +323,14 @@ static void run_backend (void)
       if (all_users[i])
         n++;
     vh_out ("slots %d", n);
+    {
+      char idx[1024] = "";
+      size_t o = 0;
+      for (int i = 0; all_users && i < max_users && o < sizeof idx - 12; i++)
+        if (all_users[i])
+          o += snprintf (idx + o, sizeof idx - o, " %d", i);
+      vh_out ("slotidx%s", idx);
+    }
   }
   for (int k = 0; k < MAXCLI; k++)
     if (cli[k].used && !cli[k].closed_by_script)
